@@ -51,6 +51,10 @@ type fragCase struct {
 	ExplicitParser bool `json:"explicit_parser,omitempty"`
 	// Address: the form of the address given to Connect (network kinds; see cli.Scenario)
 	Address string `json:"address,omitempty"`
+	// Prior / PriorRepeat (network kinds): earlier calls on the same client that were given up - "cancelled" (context cancelled while
+	// waiting for the first byte) or "eof" - PriorRepeat times in a row. The judged call gets a complete, correct reply and must return it.
+	Prior       string `json:"prior,omitempty"`
+	PriorRepeat int    `json:"prior_repeat,omitempty"`
 }
 
 // Replies computes the reply (and the normal reply length) from the device model.
@@ -132,7 +136,7 @@ func prepare(c fragCase) (prepared, error) {
 	p.predicted = cli.Model(c.Kind, reply, ev, E)
 	p.affected = known && (p.predicted.Timeout || p.predicted.Total != len(reply))
 	// (no later call where an open finding makes the client wait for more bytes than the reply has: it would only end by the read timeout)
-	p.sc = cli.Scenario{Kind: c.Kind, Req: c.Req, Stream: reply, Events: ev, Follow: c.Follow && E <= normalLen, ExplicitParser: c.ExplicitParser, Address: c.Address}
+	p.sc = cli.Scenario{Kind: c.Kind, Req: c.Req, Stream: reply, Events: ev, Follow: c.Follow && E <= normalLen, ExplicitParser: c.ExplicitParser, Address: c.Address, Prior: c.Prior, PriorRepeat: c.PriorRepeat}
 	if p.affected && p.predicted.Timeout {
 		p.sc.ReadTimeoutMs = 25
 	} else if c.SlowLastMs > 0 {
@@ -165,6 +169,12 @@ func judge(c fragCase, p prepared, o cli.Outcome) harness.Result {
 	}
 	if c.ExplicitParser {
 		labels = append(labels, "explicit-parser")
+	}
+	if c.Prior != "" {
+		labels = append(labels, fmt.Sprintf("after-%d+-abandoned-calls", min(c.PriorRepeat/8*8, 16)))
+	}
+	if o.PriorHung {
+		return harness.Fail("an earlier call (%s) on the same client did not return", c.Prior)
 	}
 	if i := strings.Index(c.Address, "://"); i > 0 {
 		labels = append(labels, "address:"+c.Address[:i])
@@ -306,6 +316,10 @@ func genFrag(t *rapid.T, kinds []string) fragCase {
 	c.ExplicitParser = !cli.IsSerial(c.Kind) && rapid.IntRange(0, 3).Draw(t, "explicit_parser") == 0
 	if !cli.IsSerial(c.Kind) {
 		c.Address = rapid.SampledFrom(cli.Addresses).Draw(t, "address")
+		if rapid.IntRange(0, 4).Draw(t, "after_abandoned_calls") == 0 {
+			c.Prior = rapid.SampledFrom([]string{"cancelled", "cancelled", "eof"}).Draw(t, "prior")
+			c.PriorRepeat = rapid.SampledFrom([]int{1, 3, 8, 12, 16}).Draw(t, "prior_repeat")
+		}
 	}
 	if cli.IsSerial(c.Kind) && c.ExcCode == 0 && rapid.IntRange(0, 7).Draw(t, "slow_last") == 0 {
 		c.SlowLastMs = 260
